@@ -878,6 +878,21 @@ func LoadContractFile(path string, trusted bool) (*ContractSet, error) {
 					c.Expr = rr
 					c.Lhs = l
 					fs.Clauses = append(fs.Clauses, c)
+				case "loopend":
+					if !strings.HasPrefix(c.Text, "requires ") {
+						return fmt.Errorf("%s:%d: loop K end requires EXPR", path, c.Line)
+					}
+					e, err := ParseSExpr(strings.TrimPrefix(c.Text, "requires "))
+					if err != nil {
+						return fmt.Errorf("%s:%d: %v", path, c.Line, err)
+					}
+					c.Expr = e
+					c.Ord = ordCount[fmt.Sprintf("loopend@%d", c.Loop)]
+					ordCount[fmt.Sprintf("loopend@%d", c.Loop)]++
+					if c.Props == nil {
+						c.Props = fs.Props
+					}
+					fs.Clauses = append(fs.Clauses, c)
 				case "loopeach":
 					// F when EXPR
 					f := strings.SplitN(c.Text, " ", 3)
@@ -961,6 +976,8 @@ func LoadContractFile(path string, trusted bool) (*ContractSet, error) {
 							cur.Kind = "loopmodifies"
 						case "each":
 							cur.Kind = "loopeach" // loop K each F when E: an iteration in which E holds calls F
+						case "end":
+							cur.Kind = "loopend" // loop K end requires E: E holds whenever an iteration completes (at the back edge)
 						default:
 							return nil, fmt.Errorf("%s:%d: loop clause %q", path, b.n, f[1])
 						}
